@@ -281,10 +281,50 @@ class Executor:
   def ev_Dict(self, e, p, module):
     keys = []
     for k in e.keys:
-      if not (isinstance(k, ast.Constant) and isinstance(k.value, str)):
-        raise Unsupported('dict with non-literal keys')
-      keys.append(k.value)
+      if k is None:
+        raise Unsupported('dict unpacking in literal')
+      if isinstance(k, ast.Constant) and isinstance(k.value, str):
+        keys.append(k.value)
+        continue
+      (q0, kv), = self.ev(k, p, module)
+      if not isinstance(kv, VStr):
+        raise Unsupported('dict with non-string keys')
+      keys.append(kv.s)
     return [(q, VDict(dict(zip(keys, vs)))) for q, vs in self.ev_list(e.values, p, module)]
+
+  def ev_ListComp(self, e, p, module):
+    if len(e.generators) != 1 or e.generators[0].ifs or not isinstance(e.generators[0].target, ast.Name):
+      raise Unsupported('comprehension form (line %d)' % e.lineno)
+    g = e.generators[0]
+    out = []
+    for q, it in self.ev(g.iter, p, module):
+      from .libspec_np import VRange
+      if isinstance(it, VRange) and len(it.args) == 1 and isinstance(it.args[0], VInt):
+        n = it.args[0].t
+        i = fresh('i', z3.IntSort())
+        saved = q.env.get(g.target.id)
+        q.env[g.target.id] = VInt(i)
+        q.assume(i >= 0)
+        q.assume(i < n)
+        for q2, elem in self.ev(e.elt, q, module):
+          if saved is None:
+            q2.env.pop(g.target.id, None)
+          else:
+            q2.env[g.target.id] = saved
+          out.append((q2, VSymList(n, i, elem)))
+      elif isinstance(it, (VList, VTuple)):
+        acc = [(q, [])]
+        for item in it.items:
+          nxt = []
+          for q1, vs in acc:
+            q1.env[g.target.id] = item
+            for q2, v in self.ev(e.elt, q1, module):
+              nxt.append((q2, vs + [v]))
+          acc = nxt
+        out += [(q2, VList(vs)) for q2, vs in acc]
+      else:
+        raise Unsupported('comprehension over %r (line %d)' % (it, e.lineno))
+    return out
 
   def ev_Lambda(self, e, p, module):
     fn = ast.FunctionDef(name='<lambda>', args=e.args, body=[ast.Return(value=e.body)], decorator_list=[],
@@ -598,6 +638,8 @@ class Executor:
       return [(p, VBoundExt(base, attr))]
     if isinstance(base, VOpaque):
       return [(p, VBoundExt(base, attr))]
+    if isinstance(base, VBoundExt) and isinstance(base.recv, VOpaque):
+      return [(p, VOpaque(base.recv.what + '.' + base.name + '.' + attr))]
     if isinstance(base, VDict):
       return [(p, VBoundExt(base, attr))]
     if isinstance(base, (VList, VTuple, VSet)):
@@ -645,6 +687,12 @@ class Executor:
         hi = idx.hi.conc() if idx.hi is not None else None
         st = idx.step.conc() if idx.step is not None else None
         return [(p, type(base)(base.items[slice(lo, hi, st)]))]
+    if isinstance(base, VStr) and isinstance(idx, VInt) and idx.conc() is not None:
+      i = idx.conc()
+      if -len(base.s) <= i < len(base.s):
+        return [(p, VStr(base.s[i]))]
+      self.raise_(p, 'IndexError', 'string index line %s' % getattr(node, 'lineno', '?'))
+      return []
     if isinstance(base, VDict):
       if isinstance(idx, VStr):
         if idx.s in base.d:
